@@ -119,7 +119,7 @@ def tomography_shape(kind, schedule, sizes):
 
 def defect_class(bad):
     bad = sorted(bad)
-    return "+".join(bad) if len(bad) <= 2 else "multiple-defects"
+    return bad[0] if len(bad) == 1 else "multiple-defects"
 
 
 def valid_class(schedule):
